@@ -178,7 +178,7 @@ def C01(ctx):
                 "strict parser; evaluation = one packet: libvorbis must accept it, consume exactly the bits the model consumes, deliver exactly the specified number "
                 "of samples, each within 1e-4 (floor 0: 2e-2) x the block's error scale of the float64 reference decode; blocks the specification does not determine "
                 "up to single-precision rounding (near-singular floor-0 LSP, exp overflow, coupling operands that cancel to ~0, non-finite) are counted, not judged; "
-                "bucket = (stratum, block-size pair, channel class, floor types, residue types, end trim) with >=1 block judged")
+                "the same stream muxed and read through vorbisfile must report and deliver exactly the specified total; bucket = (stratum, block-size pair, channel class, floor types, residue types, end trim) with >=1 block judged")
     ctx.assumptions = TRUST_COMMON + ["the model (spec.c) is the largest trusted component; its writer, parser and decoder were written from the specification text only",
                                       "classbook codes >= classifications^dim are never written (the specification wraps them, libvorbis treats them as end of packet)",
                                       "IMDCT scale and the single-entry-codebook convention follow libvorbis where the specification defers to it",
@@ -206,13 +206,17 @@ def C02(ctx):
                 "halfrate, synthesis_init incl. repeated after failure, synthesis / trackonly with wild b_o_s/e_o_s/granulepos/packetno, blockin, pcmout, read(any n), lapout, "
                 "restart, clears in any state, repeated clears, re-init); plus (mode c02f) model set-ups with 1-2 header fields forced to boundary values (64 field sites x "
                 "{0,1,max,max-1,count,count+-1,sign bit,random}; codebook entries up to 2^24-1, dim 0/1/65535) re-packed bit-exactly; evaluation = one library call with its "
-                "return value checked against the documented codes; ASan/UBSan/LSan, CPU budget and a 64 MiB stack (8 MiB confirmation build pending) judge the rest; bucket = "
+                "return value checked against the documented codes; ASan/UBSan/LSan, the CPU budget and a 64 MiB stack judge the sanitized runs; the same workloads are repeated on the uninstrumented build under the default 8 MiB stack; bucket = "
                 "(source, mutated header, mutation kind, audio mode) | field class")
     ctx.assumptions = TRUST_COMMON + ["blockin is called only directly after a successful synthesis/trackonly on that block; halfrate only while no decoder is live; lapout only in the "
                                       "states vorbisfile calls it in (a real block since restart) - other orders are outside the documented protocol",
                                       "allocation failure is not injected (the library checks no malloc result and no property asks it to)"]
     ctx.run("san", "pktmon", "c02", _n(ctx.tier, 3200, 120000), extra_src=SPEC, stack_mb=64)
     ctx.run("san", "pktmon", "c02f", _n(ctx.tier, 3200, 120000), extra_src=SPEC, stack_mb=64)
+    # "within the default thread stack": the same workloads on the uninstrumented build under an 8 MiB stack (ASan inflates frames, so the
+    # sanitized runs get 64 MiB); a crash here is a stack (or other) fault the sanitized run could not attribute to the stack limit
+    ctx.run("plain", "pktmon", "c02f", _n(ctx.tier, 3200, 60000), extra_src=SPEC, stack_mb=8)
+    ctx.run("plain", "pktmon", "c02", _n(ctx.tier, 1600, 30000), extra_src=SPEC, stack_mb=8)
     return ctx.finish(min_evals=200000, min_buckets=100)
 
 
@@ -253,6 +257,8 @@ def C03(ctx):
     ctx.assumptions = TRUST_COMMON + ["after a failed open only ov_clear is called; after ov_test without ov_test_open only the queries the documentation allows",
                                       "termination = per-case CPU-time budget (ITIMER_PROF), not wall clock"]
     ctx.run("san", "vffault", "c03", _n(ctx.tier, 5760, 120000), extra_src=SPEC, stack_mb=64, env_extra={"VH_CPU": "90"})
+    # the same cases on the uninstrumented build under the default 8 MiB stack (lapping buffers and residue scratch live on the stack)
+    ctx.run("plain", "vffault", "c03", _n(ctx.tier, 2880, 40000), extra_src=SPEC, stack_mb=8, env_extra={"VH_CPU": "60"})
     return ctx.finish(min_evals=100000, min_buckets=200)
 
 
